@@ -167,13 +167,16 @@ Qed.
 
 (** ---- byte level ---- *)
 
+Lemma frev_rev l : frev l = rev l.
+Proof. unfold frev. now rewrite rev_append_rev, app_nil_r. Qed.
+
 Lemma split_aux_line p : forall s cur,
   ~ In LF p ->
   split_lines_aux (p ++ LF :: s) cur =
   (let '(ls, t) := split_lines_aux s [] in ((rev cur ++ p ++ [LF]) :: ls, t)).
 Proof.
   induction p as [|c p IH]; intros s cur N.
-  - cbn [app split_lines_aux]. rewrite Ascii.eqb_refl. destruct (split_lines_aux s []). reflexivity.
+  - cbn [app split_lines_aux]. rewrite Ascii.eqb_refl. destruct (split_lines_aux s []). now rewrite frev_rev.
   - cbn [app split_lines_aux].
     destruct (Ascii.eqb_spec c LF) as [->|Hc]; [exfalso; apply N; now left|].
     rewrite IH by (intros X; apply N; now right).
@@ -196,9 +199,9 @@ Lemma split_aux_sound s : forall cur,
   (let '(ls, t) := split_lines_aux s cur in concat ls ++ t) = rev cur ++ s.
 Proof.
   induction s as [|c s IH]; intros cur.
-  - cbn. now rewrite app_nil_r.
+  - cbn [split_lines_aux concat app]. now rewrite frev_rev, app_nil_r.
   - cbn [split_lines_aux]. destruct (Ascii.eqb_spec c LF) as [->|Hc].
-    + specialize (IH []). destruct (split_lines_aux s []) as [ls t].
+    + specialize (IH []). destruct (split_lines_aux s []) as [ls t]. rewrite frev_rev.
       cbn [concat rev] in *. rewrite <- !app_assoc. cbn [app]. now rewrite IH.
     + rewrite IH. cbn [rev]. now rewrite <- app_assoc.
 Qed.
